@@ -731,8 +731,8 @@ VARIANTS = [
     ),
     Variant(
         "lt08-bound-after-the-subscript", LT08,
-        "                or not forward_slice[seg_idx].is_code\n            ):",
-        "                or not forward_slice[seg_idx].is_code\n            ) and seg_idx < len(forward_slice):",
+        "            while seg_idx < len(forward_slice) and (\n                forward_slice[seg_idx].is_type(\"comma\")\n                or not forward_slice[seg_idx].is_code\n            ):",
+        "            while (\n                forward_slice[seg_idx].is_type(\"comma\")\n                or not forward_slice[seg_idx].is_code\n            ) and seg_idx < len(forward_slice):",
         "R05a", "forward_slice[seg_idx].is_code) and", "a 'fix' that tests the bound after the subscript was already evaluated",
     ),
     Variant(
